@@ -176,9 +176,15 @@ fn build(ctx: &str, target: Ty, value: Ty, form: &'static str) -> Option<Case> {
             "s1 + s2".into()
         }
         "cast" => {
-            pre.push_str("int[16] other;\n");
             if value.base == "stretch" {
                 return None;
+            }
+            // the operand already has the cast's target type for one target in four (a cast is a
+            // cast also then), another type otherwise
+            if takes_width(value.base) && value.width == Some(8) {
+                pre.push_str(&format!("{} other;\n", text(value)));
+            } else {
+                pre.push_str("int[16] other;\n");
             }
             format!("{}(other)", text(value))
         }
@@ -369,6 +375,22 @@ fn check_case(c: &Case, ctx: &str, obs: &mut Obs) {
     };
     for (clause, d) in local {
         obs.violate(cell(&clause), format!("{:?}: {d}", c.src));
+    }
+    if c.form == "cast" {
+        if let Some(v) = &value {
+            // strip at most one implicit cast to the target, then the written cast must be there
+            let inner = match v.expression() {
+                Expr::Cast(k) if !matches!(k.operand().expression(), Expr::Identifier(_)) => k.operand(),
+                _ => v,
+            };
+            let ok = match inner.expression() {
+                Expr::Cast(k) => matches!(k.operand().expression(), Expr::Identifier(_)) && matches_up_to_const(k.get_type(), c.value),
+                _ => false,
+            };
+            if !ok {
+                obs.violate(cell("written-cast-missing-or-retyped"), format!("{:?}: value {:?}", c.src, crate::worker::truncate(&format!("{v:?}"), 300)));
+            }
+        }
     }
     let diagnosed = kinds.iter().any(|k| TYPE_DIAGS.contains(&k.as_str()));
     let Some(v) = value else {
